@@ -124,6 +124,9 @@ class Purity:
                     self.findings.append(Finding("R-input", mod.rel, fn.name, f"`{norm(node)[:80]}` modifies the caller's candle array in place", node))
                 if isinstance(f, ast.Attribute) and f.attr in INPLACE_FUNCS and node.args and self._is_alias(mod, node.args[0], alias):
                     self.findings.append(Finding("R-input", mod.rel, fn.name, f"`{norm(node)[:80]}` writes into the caller's candle array", node))
+                if isinstance(f, ast.Attribute) and f.attr == "nan_to_num" and node.args and self._is_alias(mod, node.args[0], alias) and \
+                        any(kw.arg == "copy" and isinstance(kw.value, ast.Constant) and kw.value.value is False for kw in node.keywords):
+                    self.findings.append(Finding("R-input", mod.rel, fn.name, f"`{norm(node)[:80]}` replaces NaNs in the caller's candle array in place (copy=False)", node))
                 for kw in node.keywords:
                     if kw.arg == "out" and self._is_alias(mod, kw.value, alias):
                         self.findings.append(Finding("R-input", mod.rel, fn.name, f"`{norm(node)[:80]}` writes its result into the caller's candle array (out=)", node))
